@@ -24,6 +24,8 @@ def run(ctx):
     import progflow
     pairs = sorted(progflow.pair_cases(ctx), key=lambda c: c["id"])
     cases += pairs[::(4 if quick else 1)]
+    skel = sorted(progflow.skel_cases(ctx), key=lambda c: c["id"])
+    cases += skel[::(2 if quick else 1)]
     ctx.exhaustive["FamC16"] = True
     wd = ctx.sub("emit")
     p0, p1 = os.path.join(wd, "c0.ndjson"), os.path.join(wd, "c1.ndjson")
